@@ -197,7 +197,7 @@ def _run(self):
             raise
         WORLD.rec('read', k, tkey(dep), 'OK', v)
         vals.append(v)
-    if self.label in WORLD.faults:
+    if self.label in WORLD.faults and WORLD.fault_exc != 'filter':
         WORLD.rec('raise', k)
         if WORLD.fault_exc == 'exit':
             raise SystemExit(f'exit:{self.label}')      # e.g. a library calling sys.exit() inside a task
@@ -225,6 +225,14 @@ def _filter_counting(self, context):
     out['applied'] = context.get('applied', 0) + 1
     out['mine'] = f'for-{self.label}'
     return out
+
+
+def _filter_faulty(self, context):
+    """TX: the task's own filter_context fails (user code of the task that runs before run())."""
+    if WORLD.fault_exc == 'filter' and self.label in WORLD.faults:
+        WORLD.rec('filter-raise', tkey(self))
+        raise KeyError(f'filter:{self.label}')
+    return context
 
 
 def _post_init(self):
@@ -287,9 +295,10 @@ TM = _mk('TM', cache=None, max_parallel=1)
 TF = _mk('TF', extra={'filter_context': _filter_even})
 TP = _mk('TP', extra={'post_init': _post_init})
 TG = _mk('TG', extra={'filter_context': _filter_counting})
+TX = _mk('TX', extra={'filter_context': _filter_faulty})
 TJ = _mk('TJ', cache=JsonCache())
 T2 = _mk('T2', cache=labtech.cache.PickleCache(pickle_protocol=2))
 
-TYPES = {c.__name__: c for c in (TA, TB, TC, TD, TN, TM, TF, TP, TJ, T2, TG)}
+TYPES = {c.__name__: c for c in (TA, TB, TC, TD, TN, TM, TF, TP, TJ, T2, TG, TX)}
 MAX_PARALLEL = {n: c._lt.max_parallel for n, c in TYPES.items()}
 CACHEABLE = {n: not isinstance(c._lt.cache, labtech.cache.NullCache) for n, c in TYPES.items()}
